@@ -217,9 +217,25 @@ def check(prog, rep, tier):
         rv = strip_epochs(p.exit[1])
         mv = [n for c in p.conds for n in walk(strip_epochs(c.atom)) if n[0] == "call" and n[1] == ("g", "min")]
         if not mv:
+            # the pinned exit taken before the minimum is computed: all(cell == LIMIT ...) holds, nothing stored, the limit reported
+            pinned_all = any(c.truth and strip_epochs(c.atom)[0] == "call" and strip_epochs(c.atom)[1] == ("g", "all") and
+                             any(n == C(UMAX) for n in walk(strip_epochs(c.atom))) for c in p.conds)
+            if pinned_all and not stores and rv == C(UMAX):
+                exits += 1
             continue
         m = mv[0]
         conds = [strip_epochs(c) for c in all_conds(p)]
+        # all(cell == LIMIT for the key's cells) is  minimum == LIMIT  (no cell exceeds the limit); its negation  minimum < LIMIT
+        extra_ = []
+        for c_ in conds:
+            neg_ = c_[0] == "un" and c_[1] == "not"
+            x_ = c_[2] if neg_ else c_
+            if x_[0] == "call" and x_[1] == ("g", "all") and len(x_[2]) == 1 and x_[2][0][0] == "comp" and len(x_[2][0][3]) == 1 and not x_[2][0][3][0][3]:
+                el_ = x_[2][0][2]
+                same_cells = m[0] == "call" and len(m[2]) == 1 and m[2][0][0] == "comp" and strip_epochs(m[2][0][3][0][2]) == strip_epochs(x_[2][0][3][0][2])
+                if el_[0] == "cmp" and el_[1] == "==" and C(UMAX) in (el_[2], el_[3]) and same_cells:
+                    extra_.append(("cmp", "<" if neg_ else "==", m, C(UMAX)))
+        conds = conds + extra_
         o0 = path_orderings(conds, m, C(0))
         om = path_orderings(conds, m, C(UMAX))
         inloop = any(c.loops for c in p.conds) or any(c.atom[0] == "loop0" for c in p.conds)
